@@ -12,7 +12,7 @@ EXPLANATION = (
     "D5 Line::from_bytes: unknown algorithm / unparsable size / malformed name -> Line::None; Distinfo::from_bytes: Line::None has no effect, Size->update_size, Checksum->update_checksum with the line's own fields; "
     "D4-BLANKSET every blank test in Line::from_bytes (leading blanks, field separator), in whatever spelling, accepts space and tab and nothing outside ASCII white space (table over 256 byte values); "
     "D5-WHOLE-LINE the text split into fields is the whole line with only leading blanks skipped; "
-    "D5-LINES the lines handed to Line::from_bytes are the pieces of a byte-level split of the input at '\\n' (no UTF-8 line reader, no adapter in between) and the loop ends only by exhaustion")
+    "D5-LINES the lines handed to Line::from_bytes are the pieces of a byte-level split of the input at '\\n' (no UTF-8 line reader, no adapter in between) and the loop ends only by exhaustion; the get-or-insert spelling map.entry(name).or_insert_with(|| Entry{filename: name, filetype, ..default}) followed by the one unconditional update is recognised as the same pair of arms")
 NOT_DECIDED = [
     "field splitting semantics for arbitrary interleavings (slice::split is std's)",
     "observed, not claimed: a bare `SHA1` line or `SHA1 (f) x y` is recorded as a checksum (field 2 and the field count are never checked)",
